@@ -39,9 +39,10 @@ def two64 : Nat := 18446744073709551616
 def methodId (m : String) : Nat :=
   match m with
   | "get" => 0 | "get_nc" => 1 | "add" => 2 | "add_nc" => 3 | "take" => 4 | "extra" => 5 | "extra_mut" => 6
+  | "get_d" => 8 | "add_d" => 9      -- provided methods of the trait (default bodies, overridden by the served object)
   | _ => 7
 
-def isMutLike (m : Nat) : Bool := m == 2 || m == 3 || m == 4 || m == 6
+def isMutLike (m : Nat) : Bool := m == 2 || m == 3 || m == 4 || m == 6 || m == 9
 
 /-- argument encoding: ((by * 16 + suspension points) * 2 + request too big) * 2 + reply too big -/
 def encArg (by_ nsusp : Nat) (bigReq bigReply : Bool) : Nat :=
@@ -69,7 +70,7 @@ def knownFor (tr : String) (m : Nat) : Bool :=
   match tr with
   | "ro" => m == 0 || m == 1
   | "fin" => m == 0 || m == 2 || m == 4
-  | _ => m ≤ 3
+  | _ => m ≤ 3 || m == 8 || m == 9
 
 abbrev RO (tr : String) (init : Nat) : Obj := regObj (knownFor tr) init
 
@@ -472,6 +473,11 @@ def onSeg (s : Sim) (line : Nat) (tag : Nat) (ws : List String) : Sim :=
   match s.getCall tag with
   | none => s.fail "c12" line s!"execution of an unknown call {tag}"
   | some ci =>
+    -- the method executed by the callee is the one that was called
+    let s := match kvGet ws "m" with
+      | some mname => if methodId mname == ci.m then s else
+          s.fail "c12" line s!"call {tag} executes method {mname} on the callee, not the method that was called"
+      | none => s
     -- real-history monitors ---------------------------------------------------------------
     let s := if k == 0 then
         let s := if ci.xs != [] || ci.segs != [] then
